@@ -438,6 +438,95 @@ fn check_script(item: &str, _ctx: &Ctx) -> Outcome {
     Outcome::pass(true, hash_str(item)).with_case(item.to_string())
 }
 
+// ------------------------------------------------------------------ deep nesting (stack depth)
+
+/// Lines that nest as deeply as the 1024-byte line limit allows. A stack overflow kills the
+/// process, so each case runs in a child process (main thread, like the terminal).
+const DEEP: &[(&str, &str, &str, &str)] = &[
+    ("paren", "PRINT ", "(", ")"),
+    ("neg", "PRINT ", "-", ""),
+    ("not", "A=", "NOT ", ""),
+    ("negparen", "A=", "-(", ")"),
+    ("def", "10 DEF FNA(X)=", "(", ")"),
+    ("subscript", "PRINT Q", "(Q", ")"),
+    ("call", "PRINT ", "ABS(", ")"),
+    ("strcall", "A$=", "LEFT$(", ",1)"),
+    ("fncall", "PRINT ", "FNA(", ")"),
+    ("ifthen", "", "IF 1 THEN ", ""),
+    ("ifelse", "", "IF 0 THEN ELSE ", ""),
+    ("power", "PRINT 2", "^(2", ")"),
+];
+
+fn deep_line(kind: &str, depth: usize) -> Option<String> {
+    let (_, head, open, close) = DEEP.iter().find(|d| d.0 == kind)?;
+    let core = match kind {
+        "ifthen" | "ifelse" => "PRINT 1",
+        "strcall" => "\"abc\"",
+        _ => "1",
+    };
+    Some(format!("{}{}{}{}", head, open.repeat(depth), core, close.repeat(depth)))
+}
+
+fn gen_deep(part: usize, parts: usize, thorough: bool, emit: &mut dyn FnMut(&str)) {
+    let mut idx = 0;
+    for d in DEEP {
+        // the deepest line that still fits into 1024 bytes, and a few shallower ones
+        let unit = d.2.len() + d.3.len();
+        let max = (1024 - d.1.len() - 8) / unit.max(1);
+        let depths: Vec<usize> = if thorough { vec![max, max - 1, max * 3 / 4, max / 2, max / 4, 64] } else { vec![max, max / 2, 64] };
+        for k in depths {
+            idx += 1;
+            if idx % parts == part {
+                emit(&format!("{} {}", d.0, k));
+            }
+        }
+    }
+}
+
+fn check_deep(item: &str, _ctx: &Ctx) -> Outcome {
+    let mut it = item.split(' ');
+    let kind = it.next().unwrap_or("");
+    let depth: usize = it.next().and_then(|x| x.parse().ok()).unwrap_or(0);
+    let line = match deep_line(kind, depth) {
+        Some(l) if l.len() <= 1024 => l,
+        _ => return Outcome::discard("does not fit into a line"),
+    };
+    let script = format!("10 DIM Q(1)\n{}\nRUN\nPRINT 1", line);
+    let root = std::env::var("VERIF_ROOT").unwrap_or_else(|_| "/verif".into());
+    let _ = std::fs::create_dir_all(format!("{}/replays", root));
+    let path = format!("{}/replays/C03_deep_{}_{}.json", root, kind, depth);
+    let j = serde_json::json!({"property": "C03", "check": "scripts", "item": script, "clause": "deep nesting, run in a child process"});
+    if std::fs::write(&path, j.to_string()).is_err() {
+        return Outcome::discard("cannot write the child's case file");
+    }
+    let exe = match std::env::current_exe() {
+        Ok(e) => e,
+        Err(_) => return Outcome::discard("no current_exe"),
+    };
+    let out = std::process::Command::new(exe).arg("C03").arg("--replay").arg(&path).env("VERIF_ROOT", &root).output();
+    let case = format!("{} nested {} deep ({} bytes), entered, RUN, PRINT 1 — in a child process", kind, depth, line.len());
+    match out {
+        Err(_) => Outcome::discard("cannot spawn the child process"),
+        Ok(o) => {
+            let text = String::from_utf8_lossy(&o.stdout).to_string();
+            match o.status.code() {
+                Some(0) => {
+                    let _ = std::fs::remove_file(&path);
+                    Outcome::pass(depth > 64, hash_str(item)).with_case(case)
+                }
+                Some(1) => Outcome::fail_sig("panic", format!("deep:{}", kind), format!("child reported a violation:\n{}", text), format!("{}\nreplay of the child: {}", case, path)),
+                Some(2) => Outcome::discard("child inconclusive"),
+                _ => Outcome::fail_sig(
+                    "abort",
+                    format!("abort:{}", kind),
+                    format!("the child process died ({:?}) — stack overflow or abort while handling the line; stderr: {}", o.status, String::from_utf8_lossy(&o.stderr).chars().take(400).collect::<String>()),
+                    format!("{}\nreplay of the child: {}", case, path),
+                ),
+            }
+        }
+    }
+}
+
 /// Entry point of the libFuzzer target: the input bytes are the tape of one session.
 /// Some(report) = the validity predicate failed.
 pub fn fuzz_session(data: &[u8]) -> Option<String> {
@@ -455,7 +544,7 @@ pub fn property() -> Property {
         rule: "Cases: (lines) one entered line — statement snippets, token soup over the full vocabulary (every keyword, operator, number shape incl. 1E / 1EE / 40 digits, \
 unterminated strings, non-ASCII), mutated snippets, arbitrary UTF-8, lines around the 1024-byte limit — driven under a random schedule (quanta 0..5000, an interrupt at a chosen \
 execute call, INPUT replies incl. over-long ones, INKEY$ keys); (sessions) up to 14 protocol-respecting operations: lines, snippet programs + RUN/LIST/RENUM/DELETE/CONT, \
-get_listing() snapshots held across later edits and dropped later, set_listing of generated files, interrupt while stopped. Oracle: no library call panics (catch_unwind), every call \
+get_listing() snapshots held across later edits and dropped later, set_listing of generated files, interrupt while stopped. (deep_nesting) twelve nesting constructs (parentheses, unary minus, NOT, calls, user-function calls, subscripts, IF chains, ^) at the greatest depth a 1024-byte line allows and at fractions of it, each entered, RUN and followed by PRINT 1 in a child process whose death by signal is the failure. (code_boundary, shared with C18) direct statements of growing size beside stored programs that fill the 64K code pool to within 0..5 statements. Oracle: no library call panics (catch_unwind), every call \
 returns (20 s watchdog, re-confirmed in a fresh process), after one interrupt() the runtime is Stopped within 16 execute calls and PRINT 1 prints 1. \
 Non-trivial: a line with >= 2 tokens; a session that printed something and used an interrupt, an INPUT reply, or a snapshot alive during an edit. Distinct by text of the case.",
         assumptions: vec![
@@ -465,6 +554,8 @@ Non-trivial: a line with >= 2 tokens; a session that printed something and used 
         ],
         subs: vec![
             Sub::items("scripts", gen_scripts, check_script, false),
+            Sub::items("deep_nesting", gen_deep, check_deep, false).wedge(120),
+            Sub::items("code_boundary", super::c18::gen_boundary, super::c18::check_boundary, false).wedge(600),
             Sub::tape("lines", check_line, 300_000, 12_000_000, 160),
             Sub::tape("sessions", check_session, 80_000, 3_000_000, 700),
         ],
